@@ -19,6 +19,9 @@ pub fn weight(prop: &str, e: &Episode, thorough: bool) -> usize {
     if prop == "C04" {
         let mut w = base;
         for op in &e.ops {
+            if op["op"] == "canon_inv" {
+                w += 40;
+            }
             if op["op"] == "canon" {
                 // beyond enumeration (quick: npn > 6, p > 7; thorough: npn > 7): walk check (cached per trace file)
                 // and orbit neighbourhood only
